@@ -48,7 +48,7 @@ def sensitivity(argv) -> int:
                 if r.returncode == 1:
                     caught_by.append(cid)
                 else:
-                    tails.append(r.stdout[-600:])
+                    tails.append(r.stdout[-600:] + "\n--- stderr head ---\n" + r.stderr[:1500] + "\n--- stderr tail ---\n" + r.stderr[-800:])
             if not caught_by:  # a change named for several checks counts as caught when at least one of them reports it
                 missed += 1
                 print("\n".join(tails))
